@@ -55,7 +55,7 @@ def load_known():
         with open(KNOWN) as fh:
             for line in fh:
                 line = line.strip()
-                if line and not line.startswith("#"):
+                if line.startswith("{"):
                     res.append(json.loads(line))
     return res
 
@@ -80,7 +80,7 @@ def finish(rep, tier, t0, configs=("baseline",), extra=None):
         print("KNOWN-FINDING: property=%s %s" % (prop, k["what"]))
     for k in stale:
         sys.stderr.write("note: known finding no longer matches anything (stale): %s\n" % k["key"])
-    rdir = os.path.join(VERIF, "replay", prop)
+    rdir = os.path.join(os.environ.get("GDVERIF_REPLAY_DIR") or os.path.join(VERIF, "replay"), prop)
     for o in violations:
         os.makedirs(rdir, exist_ok=True)
         h = hashlib.sha256(o.key.encode()).hexdigest()[:16]
@@ -131,8 +131,9 @@ def finish(rep, tier, t0, configs=("baseline",), extra=None):
         "wall_s": round(time.time() - t0, 2),
         "violations": len(violations),
     }
-    os.makedirs(os.path.join(VERIF, "evidence"), exist_ok=True)
-    with open(os.path.join(VERIF, "evidence", prop + ".json"), "w") as fh:
+    evdir = os.environ.get("GDVERIF_EVIDENCE_DIR") or os.path.join(VERIF, "evidence")
+    os.makedirs(evdir, exist_ok=True)
+    with open(os.path.join(evdir, prop + ".json"), "w") as fh:
         json.dump(ev, fh, indent=1, default=str)
     print("%s tier=%s obligations=%d passed=%d known=%d violations=%d wall=%.1fs" % (
         prop, tier, n_ob, n_ok, len(known_hit), len(violations), time.time() - t0))
